@@ -394,20 +394,11 @@ func short(in []string) []string {
 	return out
 }
 
-// controllingConds returns the branch conditions of the If instructions that dominate b and on which b is
-// control dependent (b is reachable from exactly one of the two successors without passing the other's exclusive region).
+// controllingConds returns the branch conditions that (transitively) control whether b executes.
 func controllingConds(b *ssa.BasicBlock) []ssa.Value {
 	var out []ssa.Value
-	for d := b.Idom(); d != nil; d = d.Idom() {
-		if len(d.Instrs) == 0 {
-			continue
-		}
-		if iff, ok := d.Instrs[len(d.Instrs)-1].(*ssa.If); ok {
-			// b must be dominated by one successor of d (then the condition decides whether b runs)
-			if d.Succs[0].Dominates(b) != d.Succs[1].Dominates(b) {
-				out = append(out, iff.Cond)
-			}
-		}
+	for _, e := range core.ControllingConds(b) {
+		out = append(out, e.Cond)
 	}
 	return out
 }
